@@ -9,7 +9,7 @@ use serde_json::{json, Map, Value};
 const FIELDS: [&str; 9] = ["typ", "cty", "jku", "kid", "x5u", "x5c", "x5t", "x5t_s256", "crit"];
 
 fn rand_string(rng: &mut Rng) -> String {
-    let pool = ["", "a", "sd-jwt", "kb+jwt", "https://example.com/jwks.json", "é", "日本語", "with \"quotes\"", "tab\tnewline\n", "😀", "null", "0", "~/. ", "\u{7f}", "x5t"];
+    let pool = ["application/json", "application/example+sd-jwt", "application/jwt", "text/plain", "application/", "APPLICATION/JSON", "vc+sd-jwt", "", "a", "sd-jwt", "kb+jwt", "https://example.com/jwks.json", "é", "日本語", "with \"quotes\"", "tab\tnewline\n", "😀", "null", "0", "~/. ", "\u{7f}", "x5t"];
     if rng.chance(1, 2) { rng.pick(&pool).to_string() } else { (0..rng.below(12)).map(|_| *rng.pick(&['a', 'Z', '0', '-', '_', '.', ' ', 'é', '/'])).collect() }
 }
 
